@@ -346,7 +346,7 @@ Reinserted(gh, h, i) ==
 
 GhostOp(gh, t, e) ==
   LET cls == gh.cop[t] IN
-  CASE e.o = "map" /\ e.op = "remove" /\ IsOrder(e.r) ->
+  CASE e.o = "map" /\ e.op = "remove" /\ IsOrder(e.r) /\ e.v \in Ids ->
          LET g1 == Touch(gh, e.v)
              g2 == [g1 EXCEPT !.lastRm[t] = e.v, !.popped[t] = 0,
                               !.gone[e.v] = IF cls = "remove" THEN TRUE ELSE @,     \* the canceller owns it from here on
@@ -365,7 +365,7 @@ GhostOp(gh, t, e) ==
     [] e.o \in {"vis", "gen"} /\ cls = "match" /\ gh.cur[t] \in Ids /\ gh.gone[gh.cur[t]] /\ gh.cur[t] \notin HeldIds(gh, t) ->
          (* the matcher executes against a maker that a successful cancel has taken *)
          [gh EXCEPT !.bad = @ \cup {"traded-after-cancel"}]
-    [] e.o = "map" /\ e.op = "insert" ->
+    [] e.o = "map" /\ e.op = "insert" /\ IsOrder(e.v) ->      \* (an unresolvable key carries no order: model drift)
          LET i  == e.v.id
              g1 == [gh EXCEPT !.pushing[t] = i] IN
          IF cls = "add"
